@@ -46,6 +46,16 @@ func NewSession(info Info, sessionID []byte, pl *pool.Pool, auxInfo ...hash.Writ
 		return nil, errors.New("session: partyIDs invalid")
 	}
 
+	// an ID is used as a non-zero evaluation point of the secret sharing polynomials
+	for _, id := range partyIDs {
+		if id == "" {
+			return nil, errors.New("session: empty party ID")
+		}
+		if info.Group != nil && id.Scalar(info.Group).IsZero() {
+			return nil, fmt.Errorf("session: party ID %q maps to the zero scalar", string(id))
+		}
+	}
+
 	// verify our ID is present
 	if !partyIDs.Contains(info.SelfID) {
 		return nil, errors.New("session: selfID not included in partyIDs")
